@@ -51,6 +51,17 @@ def tus(tier, seed, table=None):
             res.append(dict(name='%s_p%d_%d_%s' % (table, path, idx, comp), src=body, compiler=comp,
                             defines=['CNL_VERIF_OVERFLOW_PATH=%d' % path]))
             idx += 1
+    # floating-point sources
+    FT = {'f32': 'float', 'f64': 'double', 'f80': 'long double'}
+    fc = [('sat', 'f32', 'i32'), ('sat', 'f64', 'i64'), ('thr', 'f32', 'u8'), ('trp', 'f64', 'u32'), ('sat', 'f80', 'i64'), ('sat', 'f32', 'i8'),
+          ('thr', 'f64', 'i16'), ('sat', 'f64', 'u64'), ('trp', 'f32', 'i64')]
+    for i in range(0, len(fc), 3):
+        body = '#define VH_TABLE "%s"\n#include "%s"\nint main(){ install(); Rng rng(seed_from_env()+%d);\n' % (
+            table, __file__.replace('C07.py', 'C06.py').replace('.py', '.h'), 700 + i)
+        for (tag, f, d) in fc[i:i + 3]:
+            body += '  cvtf<%s, %s, %s>(rng);\n' % (TAGS[tag], FT[f], CT[d])
+        body += '}\n'
+        res.append(dict(name='%s_float_%d' % (table, i // 3), src=body, compiler='g++' if i % 2 == 0 else 'clang++', defines=['CNL_VERIF_OVERFLOW_PATH=1']))
     return res
 
 
